@@ -171,6 +171,7 @@ PROPS = {
         level="other",
         lemmas=[],
         functions=[M_JS + "_gap", M_JS + "_nibble", M_JS + "_fixedc", M_JS + "_gap_encode",
+                   M_JS + "_gap_decode@g2", M_JS + "_gap_decode@g3", M_JS + "_gap_decode@g4",
                    M_JS + "juniper_nonrandom_encrypt"],
         generators=[_ro.gen_juniper_valid],
         standins=[("rt_text", "C18")],
@@ -180,7 +181,9 @@ PROPS = {
                   "salt, regular-language obligations on VALID; decrypt loop and whole-string round trip by a bounded "
                   "run-time check",
         text="Proved: each group produced by _gap_encode decodes to its character and stays in the alphabet (the "
-             "arithmetic core: gap offsets, % 65, % 256, table contents); encrypt raises nothing for any salt string and "
+             "arithmetic core: gap offsets, % 65, % 256, table contents); _gap_decode returns the character whose code is "
+             "the weighted gap sum modulo 256 for every row and refuses a gap list of another length (list modelled "
+             "as a tuple of length 2, 3, 4 - the group lengths of ENCODING); encrypt raises nothing for any salt string and "
              "yields $9$ + salt character + groups; VALID is exactly $9$ + at least four alphabet characters anchored at "
              "the very end.  NOT proved (bounded only): the loop-level composition decrypt(encrypt(p, s)) == p and that "
              "decrypt raises only ValueError.",
